@@ -214,14 +214,59 @@ def pc_true(pc, pred):
     return any(pol and pred(t) for t, pol in q.conds(pc))
 
 
+def pc_infeasible(pc):
+    """The path condition contradicts itself: its conditions (with the arms a `match` arm excludes) are put into clauses, units are
+    propagated, and every literal is simplified under the others (case collapse of `ite`, idiom normal forms such as get-after-insert).
+    A literal that simplifies to the opposite truth value means that no execution reaches the site."""
+    import norm as _norm
+    nz = _norm.Normalizer()
+    conds = []
+    for c in pc:
+        if c[0] == "if":
+            conds.append((c[1], bool(c[2])))
+        elif c[0] == "match":
+            conds.append((("matches", c[1], c[2]), bool(c[3])))
+            if c[3]:
+                for d in (c[5] if len(c) > 5 else ()):
+                    conds.append((("matches", c[1], d), False))
+                for d, g in (c[7] if len(c) > 7 else ()):
+                    conds.append((("bin", "&&", ("matches", c[1], d), g), False))
+    clauses = []
+    for t, pol in conds:
+        x, p = terms._strip_not(nz(t), pol)
+        clauses += terms.to_clauses(x, p)
+    if len(clauses) > 60:
+        return False
+    pr = terms.propagate_clauses([], clauses)
+    if pr is None:
+        return True
+    lits, rest = pr
+    for i, (x, p) in enumerate(lits):
+        if x[0] == "lit":
+            continue
+        others = lits[:i] + lits[i + 1:]
+        x2, p2 = terms._strip_not(nz(terms._assume(x, others, rest, 0)), p)
+        if x2[0] == "lit" and isinstance(x2[1], bool) and x2[1] != p2:
+            return True
+    return False
+
+
 def g1_discharged(st, kind, what, fn_summ):
     pc = st.pc
+    if kind in ("panic", "unwrap") and pc_infeasible(pc):
+        return "the path condition of the site contradicts itself (no execution reaches it)"
     if kind == "unwrap":
         recv = st.args[0]
         if recv[0] == "ctor" and last(recv[1]) in ("Some", "Ok"):
             return "the value is Some(..) / Ok(..) by construction"
         if known_some(pc, recv):
             return "a test `is Some / contains_key` on the same value dominates the unwrap"
+        import norm as _norm
+        ty = str(getattr(st, "ty", "") or "")
+        argty = str((st.argnodes[0] or {}).get("ty", "")) if getattr(st, "argnodes", None) else ""
+        which = _norm.OK_DESC if "Result<" in argty else _norm.SOME_DESC
+        if pc_infeasible(tuple(pc) + (("if", ("matches", recv, which), False, None),)):
+            return "the path condition together with `the value is None / Err` contradicts itself: the value is Some / Ok whenever the site is reached"
         return None
     if kind == "index":
         base, idx = st.args
@@ -243,6 +288,13 @@ def g1_discharged(st, kind, what, fn_summ):
                         return "i > 0 dominates tokens[i - 1]"
                     return None
                 return "position(..) = Some(i) dominates tokens[i] / tokens[..i] / tokens[i+1..]"
+        # x[i] under the dominating test `i < x.len()` on the very same index term and the very same (unmodified) sequence
+        ln_ = lambda t: t[0] == "call" and last(t[1]) in ("len", "#len") and t[2] == (base,)      # noqa: E731
+        if idx[0] not in ("struct", "lit") and not terms.contains(base, lambda z: z[0] in ("mut", "loopvar", "mu")):
+            for t, pol in closure(pc):
+                if t[0] == "bin" and ((pol and ((t[1] == "<" and t[2] == idx and ln_(t[3])) or (t[1] == ">" and t[3] == idx and ln_(t[2]))))
+                                      or (not pol and ((t[1] == ">=" and t[2] == idx and ln_(t[3])) or (t[1] == "<=" and t[3] == idx and ln_(t[2]))))):
+                    return "i < len(x) dominates x[i]"
         if idx[0] == "lit" and isinstance(idx[1], terms.Int):
             n = int(idx[1])
             ln = lambda t: t[0] == "call" and last(t[1]) in ("len", "#len") and t[2] == (base,)       # noqa: E731
@@ -371,6 +423,21 @@ def parser_unreachable(pc):
                             arm_cls |= x
                     if cls <= arm_cls:
                         return "the searched predicate holds at tokens[i], and its pattern is matched by an earlier arm"
+        if c[0] == "match" and c[3] and c[2][0] == "wild" and len(c) > 5 and c[5]:
+            # `match &tokens[i..] { [P, rest @ ..] => .., _ => unreachable!() }` (also `match tokens` when i == 0): the slice from a
+            # found position is not empty and starts with a token of the searched class
+            for S, pos, i, cls, zero in facts:
+                from_i = c[1][0] == "index" and c[1][1] == S and c[1][2][0] == "struct" and last(c[1][2][1]) == "RangeFrom" and dict(c[1][2][2]).get("start") == i
+                if not (from_i or (zero and c[1] == S)):
+                    continue
+                arm_cls = set()
+                for d in c[5]:
+                    if d[0] == "slice" and len(d[1]) == 1 and d[2] and not d[3]:
+                        x = PS.desc_class(_PROG, d[1][0])
+                        if x:
+                            arm_cls |= x
+                if cls <= arm_cls:
+                    return "the slice from the searched position starts with a token of the searched class, which an earlier arm's slice pattern matches"
     return None
 
 
@@ -507,25 +574,67 @@ def all_shapes():
     return out
 
 
+class PanicHooks(E.Hooks):
+    """Besides the parser's search helpers, the private methods of the crate's own structs are inlined: `scope.renamed(v)` is the
+    look-up it performs, `scope.quantify(v)` the insertion - so the guards and updates they contain are visible at the call site."""
+
+    def __init__(self, prog, prefixes, opaque_names=()):
+        super().__init__(prefixes, opaque_names=opaque_names)
+        self.prog = prog
+
+    def opaque(self, fn):
+        if fn.path not in self.opaque_names and fn.vis != "Public" and "::" in fn.path and self.prog.adt(fn.path.rsplit("::", 1)[0]) is not None:
+            pub_adt = False
+            return pub_adt
+        return super().opaque(fn)
+
+
 def shape_summaries(prog, eng, f):
-    """Specialisations of f for every shape of its tree-node parameter (empty if it has none)."""
-    idx = [i for i, t in enumerate(f.param_tys) if t.replace("&", "").strip().endswith("HctlTreeNode")]
-    if len(idx) != 1:
-        return []
+    """Case splits of f: specialisations for every shape of its tree-node parameter, and for every variant of a parameter of a local
+    enum type with constant variants (an operator kind).  A list of alternative splits (each a list of summaries)."""
     pn = f.param_names()
-    out = []
-    for sh in all_shapes():
-        try:
-            s = eng.specialise(f, {pn[idx[0]]: E.node_term(sh)})
-        except Exception:
-            return []
-        if s is None:
-            return []
-        out.append(s)
-    return out
+    splits = []
+    idx = [i for i, t in enumerate(f.param_tys) if t.replace("&", "").strip().endswith("HctlTreeNode")]
+    for i, t in enumerate(f.param_tys):
+        adt = prog.adt(t.replace("&", "").strip())
+        if adt is not None and adt.get("kind") == "enum" and 1 < len(adt["variants"]) <= 12 and all(not v["fields"] for v in adt["variants"]):
+            out = []
+            for v in adt["variants"]:
+                try:
+                    s = eng.specialise(f, {pn[i]: ("ctor", adt["path"] + "::" + v["name"], ())})
+                except Exception:
+                    s = None
+                if s is None:
+                    out = []
+                    break
+                out.append(s)
+            if out:
+                splits.append(out)
+    if len(idx) == 1:
+        out = []
+        for sh in all_shapes():
+            try:
+                s = eng.specialise(f, {pn[idx[0]]: E.node_term(sh)})
+            except Exception:
+                s = None
+            if s is None:
+                out = []
+                break
+            out.append(s)
+        if out:
+            splits.append(out)
+    return splits
 
 
-def discharged_per_shape(st, per_shape):
+def discharged_per_shape(st, splits):
+    for per_shape in splits or []:
+        r = discharged_in_split(st, per_shape)
+        if r:
+            return r
+    return None
+
+
+def discharged_in_split(st, per_shape):
     if not per_shape:
         return None
     seen = 0
@@ -539,7 +648,7 @@ def discharged_per_shape(st, per_shape):
                 if not g1_discharged(x, d[0], d[1], s):
                     return None
     if seen:
-        return f"for every shape of the tree node ({seen} reachable cases) the site is guarded or its operand is Some(..) by construction"
+        return f"for every case of the node shape / operator kind the function works on ({seen} reachable cases) the site is guarded or its operand is Some(..) by construction"
     return None
 
 
@@ -552,7 +661,7 @@ def run(prog, rep):
     rep.rule("C14-R3", "the listed errors are produced as Err values")
     # the small search helpers of the parser are inlined so that `i` is visibly the first position of a predicate
     import parserspec as PS
-    eng = terms.Engine(prog, inline=True, hooks=E.Hooks([PS.PARSER], opaque_names=[f.path for f in prog.lib_fns() if PS.is_level_fn(f)] + [PS.PARSER + "parse_hctl_tokens",
+    eng = terms.Engine(prog, inline=True, hooks=PanicHooks(prog, [PS.PARSER], opaque_names=[f.path for f in prog.lib_fns() if PS.is_level_fn(f)] + [PS.PARSER + "parse_hctl_tokens",
                                                                                    PS.PARSER + "parse_hctl_formula", PS.PARSER + "parse_extended_formula",
                                                                                    PS.PARSER + "parse_and_minimize_hctl_formula", PS.PARSER + "parse_and_minimize_extended_formula"]))
     global _PROG
@@ -778,7 +887,8 @@ def check_validator_placement(prog, rep, eng, roots):
     for ep in roots:
         sm = deng.summary(ep)
         evs = pipelines.eval_sites(sm)
-        pv = [x for x in sm.all_sites() if x.kind == "call" and isinstance(x.callee, str) and prog.resolve_local(ep.crate, x.callee) in (vplain, vext)]
+        vfns = [v_ for v_ in (vplain, vext) if v_ is not None]
+        pv = [x for x in sm.all_sites() if x.kind == "call" and isinstance(x.callee, str) and prog.resolve_local(ep.crate, x.callee) in vfns]
         good = bool(evs) and len(pv) == 1
         why = f"{len(evs)} eval_node sites, {len(pv)} validator calls"
         if good:
